@@ -41,3 +41,25 @@ func VerifC02GetReceipts(cs *ChainService, blockHash []byte) (*types.Receipts, e
 
 // VerifC02SetCoinbase sets the package-level coinbase account (chain.Init reads it from the config).
 func VerifC02SetCoinbase(a []byte) { CoinbaseAccount = a }
+
+// VerifC02CommitProduced is what the chain service does with a block this node produced, minus the chain DB
+// (block store, best-block index): newBlockExecutor with the producer's block state (commitOnly) and execute
+// (ValidatePost, BlockState.Commit, ChainStateDB.UpdateRoot). Used for "time-warp" sessions whose block
+// numbers jump (the staking/voting delays are 86400 blocks), which the chain DB would refuse to index.
+func VerifC02CommitProduced(cs *ChainService, blk *types.Block, bstate *state.BlockState) error {
+	ex, err := newBlockExecutor(cs, bstate, blk, false)
+	if err != nil {
+		return err
+	}
+	return ex.execute()
+}
+
+// VerifC02ExecCommit is the validator path with commit, minus the chain DB: newBlockExecutor without a block
+// state and execute (tx loop, reward, Update, ValidatePost, Commit, UpdateRoot).
+func VerifC02ExecCommit(cs *ChainService, blk *types.Block) error {
+	ex, err := newBlockExecutor(cs, nil, blk, false)
+	if err != nil {
+		return err
+	}
+	return ex.execute()
+}
